@@ -318,3 +318,47 @@ func onlyReachedFrom(c *core.Ctx, g *ssa.Function, roots []*ssa.Function, depth 
 	}
 	return true
 }
+
+// homeOf finds where, in the family of fn, the calls of targets live: fn itself when it contains one, otherwise an unexported same-package
+// helper that fn calls on the way to every normal return (the call dominates them) and that contains one — recursively, depth-bounded.
+// Rules written for "fn does X before it returns" are then evaluated on the helper the X was moved into. Returns fn when nothing is found.
+func homeOf(c *core.Ctx, fn *ssa.Function, targets ...*types.Func) *ssa.Function {
+	var find func(f *ssa.Function, d int) *ssa.Function
+	find = func(f *ssa.Function, d int) *ssa.Function {
+		if len(core.CallsIn(f, targets...)) > 0 {
+			return f
+		}
+		if d <= 0 {
+			return nil
+		}
+		for _, ci := range core.AllCalls(f) {
+			if _, isCall := ci.(*ssa.Call); !isCall {
+				continue
+			}
+			h := core.StaticFn(ci)
+			if h == nil || h.Pkg != f.Pkg || h.Blocks == nil || h == f {
+				continue
+			}
+			if o, ok := h.Object().(*types.Func); !ok || o.Exported() {
+				continue
+			}
+			dom := true
+			for _, r := range core.Returns(f) {
+				if r.Block() != f.Recover && !core.Dominates(ci, r) {
+					dom = false
+				}
+			}
+			if !dom {
+				continue
+			}
+			if got := find(h, d-1); got != nil {
+				return got
+			}
+		}
+		return nil
+	}
+	if got := find(fn, 2); got != nil {
+		return got
+	}
+	return fn
+}
